@@ -154,6 +154,35 @@ fn book_script(r: &mut SimRng) -> Vec<PyCall> {
         g.calls.push(PyCall { k: "new_book".into(), o: o.into(), m: String::new(), a });
     }
     g.calls.push(PyCall { k: "new_book".into(), o: o.into(), m: String::new(), a: vec![json!(t0), json!(tick), json!(trading)] });
+    if trading && g.r.chance(0.05) {
+        // whale prologue: three bids of 2^30 behind one ask of 2^30, then the first bid is raised to 2^31 and re-priced
+        // through the ask: 2^30 executes at once, 2^30 rests - every side total stays below 2^32 (3 * 2^30), although
+        // (side total - old volume + new volume) alone would reach 2^32
+        let w: u32 = 1 << 30;
+        let (pb, pa) = ((centre - 2) * tick, (centre + 2) * tick);
+        let mut t = g.m.t;
+        let mut place = |g: &mut G, bid: bool, price: u32, t: &mut u64| {
+            *t += 1;
+            g.m.set_time(*t);
+            g.calls.push(call(o, "set_time", vec![json!(*t)]));
+            if let Ok(id) = g.m.create(bid, w, 7, Some(price)) {
+                g.m.place(id);
+            }
+            g.calls.push(call(o, "place_order", vec![json!(bid), json!(w), json!(7), json!(price)]));
+        };
+        place(&mut g, false, pa, &mut t);
+        let first_bid = g.m.orders.len();
+        place(&mut g, true, pb, &mut t);
+        place(&mut g, true, pb, &mut t);
+        place(&mut g, true, pb, &mut t);
+        t += 1;
+        g.m.set_time(t);
+        g.calls.push(call(o, "set_time", vec![json!(t)]));
+        g.m.modify(first_bid, Some(pa), Some(w * 2));
+        g.calls.push(call(o, "modify_order", vec![json!(first_bid), json!(pa), json!(w * 2)]));
+        g.calls.push(call(o, "get_orders", vec![]));
+        g.calls.push(call(o, "bid_vol", vec![]));
+    }
     let n = if g.r.chance(0.8) { g.r.range(5, 40) } else { g.r.range(41, 120) } as usize;
     let mut trading_now = trading;
     while g.calls.len() < n {
